@@ -32,7 +32,7 @@ CAPS = ["ALU", "MEM", "BR"]
 # weights of the integer case stream (case % len(FAMILIES))
 FAMILIES = ["layered", "layered", "layered", "layered", "forkjoin", "forkjoin", "deadbranch", "deadbranch",
             "deadbranch", "partial", "partial", "partial", "random", "random", "malformed", "malformed",
-            "malformed", "tiny", "mkproc", "mkproc"]
+            "malformed", "tiny", "mkproc", "mkproc", "fanout"]
 INJECTIONS = ["dupname", "dupname_case", "width", "badedge", "undef", "cycle", "selfloop", "dupedge"]
 TIMEOUT = 10.0
 CORPUS = os.path.join(core.VERIF, "harness", "corpus")
@@ -158,6 +158,41 @@ def shape_forkjoin(rng):
         units.append(_unit(rng, names[t], _pick_caps(rng, pool, 0.85), wl=not lock_at_branch_w))
         edges.append((join, t))
     _perturb(rng, units, rng.choice([0.0, 0.0, 0.05, 0.12]))
+    return units, sorted(set(edges))
+
+
+def shape_fanout(rng):
+    """scale: one unit feeding 5-8 parallel branches that join again; locks on the branches, one LATE branch possibly
+    inconsistent (missing / extra lock); optionally a dead branch 3-6 levels deep"""
+    pool = CAPS[:rng.randint(1, 2)]
+    nb = rng.randint(5, 8)
+    names = _names(rng, nb + 10)
+    units = [_unit(rng, names[0], pool, rl=True)]
+    edges = []
+    lock_on_branches = rng.random() < 0.7
+    for k in range(nb):
+        idx = len(units)
+        units.append(_unit(rng, names[idx], pool, wl=lock_on_branches))
+        edges.append((0, idx))
+    join = len(units)
+    units.append(_unit(rng, names[join], pool, wl=not lock_on_branches))
+    for k in range(1, nb + 1):
+        edges.append((k, join))
+    r = rng.random()
+    if r < 0.45:                      # a late branch disagrees
+        victim = rng.randint(max(1, nb - 3), nb)
+        units[victim]["wl"] = not units[victim]["wl"]
+    elif r < 0.6:
+        victim = rng.randint(1, nb)
+        units[victim]["rl"] = True
+    if rng.random() < 0.4:            # a deep dead branch hanging off the source
+        prev = 0
+        depth = rng.randint(3, 6)
+        for k in range(depth):
+            idx = len(units)
+            units.append(_unit(rng, names[idx], pool if k < depth - 1 else ["NOPE"]))
+            edges.append((prev, idx))
+            prev = idx
     return units, sorted(set(edges))
 
 
@@ -364,6 +399,8 @@ def gen_desc(rng, family):
         units, edges, _ = shape_layered(rng)
     elif family == "forkjoin":
         units, edges = shape_forkjoin(rng)
+    elif family == "fanout":
+        units, edges = shape_fanout(rng)
     elif family == "deadbranch":
         units, edges = shape_deadbranch(rng)
     elif family == "partial":
